@@ -694,7 +694,7 @@ def replay_for(prop, rec, every=0):
     inp = rec.get('input') or rec
     pl = inp['scenario']
     every = every or (3 if rec.get('xval') else 0)
-    tries = every or 6
+    tries = every or 16          # (real tokio starts select! at a random branch: a schedule that needs one order reproduces in an attempt with probability 1/2)
     if pl.get('family') == 'password':
         pw = pl.get('pw', 'hunter 2')
         spec = ('opt:' if pl.get('entry') == 'opt' else 'pw:') + ('-' if pw is None else hexs(pw.encode()))
